@@ -169,6 +169,7 @@ class Builder(object):
   def round(self, a): return self.mk("round", (a,), None, "F", True)
   def floor(self, a): return self.mk("floor", (a,), None, "F", True)
   def ceil(self, a): return self.mk("ceil", (a,), None, "F", True)
+  def trunc(self, a): return self.mk("trunc", (a,), None, "F", True)
   def sqrt(self, a): return self.mk("sqrt", (a,), None, "F", True)
   def fmax(self, a, b): return self.mk("max", (a, b), None, "F", a.nosub and b.nosub)
   def fmin(self, a, b): return self.mk("min", (a, b), None, "F", a.nosub and b.nosub)
@@ -420,8 +421,8 @@ class FPEmitter(object):
       self._define(n, "(fp.neg %s)" % A[0])
     elif op == "abs":
       self._define(n, "(fp.abs %s)" % A[0])
-    elif op in ("round", "floor", "ceil"):
-      rm = {"round": "RNE", "floor": "RTN", "ceil": "RTP"}[op]
+    elif op in ("round", "floor", "ceil", "trunc"):
+      rm = {"round": "RNE", "floor": "RTN", "ceil": "RTP", "trunc": "RTZ"}[op]
       self._define(n, "(fp.roundToIntegral %s %s)" % (rm, self._daz(n.args[0])))
     elif op in ("max", "min"):
       self._define(n, "(ite (or (fp.isNaN %s) (fp.isNaN %s)) %s (fp.%s %s %s))" % (A[0], A[1], NAN, op, A[0], A[1]))
